@@ -125,8 +125,21 @@ def make_case(ctx, rng, cid):
     n = rng.choice([1, 2, 3, 4])
     for sid in range(n):
         if rng.random() < 0.75:
-            s = cases.make_source(rng, sid, rng.choice([1, 3, 8, 25]), t0, tz_min, mode=rng.choice(["ties", "subus", "subsec", "dense"]),
-                                  codec=None, chrono=True, ncont_max=3, cont_class=rng.choice(["ascii", "utf8", "bin"]))
+            # one text source in five has lines longer than the printer's 2056-byte staging buffer
+            longl = rng.random() < 0.2
+            s = cases.make_source(rng, sid, rng.choice([1, 3, 8]) if longl else rng.choice([1, 3, 8, 25]), t0, tz_min,
+                                  mode=rng.choice(["ties", "subus", "subsec", "dense"]),
+                                  codec=None, chrono=True, ncont_max=3, cont_class=rng.choice(["ascii", "utf8", "bin"]),
+                                  body_len=rng.choice([2040, 2100, 5000, 9000]) if longl else None)
+            if longl:
+                for m in s.msgs[::2]:
+                    m.data += gen.filler(rng, rng.choice([2057, 3000, 70000]), "ascii") + b"\n"
+                # block-zero analysis needs 3 lines and 2 messages inside the first 64 KiB (C02's known
+                # finding when it does not get them): lead with three short messages
+                extra = cases.make_source(rng, sid + 100, 3, t0 - 20 * gen.NS, tz_min, mode="dense", notation=s.notation,
+                                          chrono=True, ncont_max=0, body_len=10).msgs
+                assert extra[-1].ns <= s.msgs[0].ns
+                s.msgs = extra + s.msgs
             data = s.plain_bytes()
             s.path = gen.write(os.path.join(d, names[sid]), data)
             s.arg = s.path if rng.random() < 0.7 else os.path.relpath(s.path, d)
